@@ -1040,6 +1040,71 @@ func genLevel(repo, out string) {
 		}
 		sb.WriteString(d3 + "\n")
 	}
+	// compactL0: the same for the compaction of level 0 into level 1 (which tables are read, in which order they are merged, when the output gets its
+	// name, when it is written, when the inputs disappear from the index and from the directory)
+	{
+		f4 := findFunc(p, "levelManager", "compactL0")
+		sp := transSpec{
+			leanName: "compactL0",
+			binders:  "(needLevel : Bool) (l0 : List Nat) (l1 : List Nat) (newIdx : Nat) (writeFails : Bool) (ev : List (String × Nat))",
+			retType:  "Option (List Nat × List (String × Nat))",
+			exprMap: map[string]string{"len(lm.levels)-1 < 1": "needLevel", "lm.overlapL0()": "l0", "lm.overlapLN(1, start, end)": "l1",
+				"tab.Value.(tableHandle)": "tab", "dataBlock.Entries": "dataBlock", "err != nil": "err"},
+			state: []string{"dataBlockList", "ev"}, stateLn: []string{"dataBlockList", "ev"}, evVar: "ev",
+			stateTy: []string{"List Nat", "List (String × Nat)"}, join: true,
+			zero: map[string]string{"[][]types.Entry": "([] : List Nat)"},
+			effects: map[string]string{
+				"lm.levels = append(lm.levels, list.New())":                                                 "new level|0",
+				"lm.fetch(1, th.levelIdx, th.dataBlockIndex.DataBlock)":                                     "fetch L1|th",
+				"lm.fetch(0, th.levelIdx, th.dataBlockIndex.DataBlock)":                                     "fetch L0|th",
+				"kway.MergeVersions(dataBlockList...)":                                                      "MergeVersions|dataBlockList.length",
+				"lm.discardStaleEntries(mergedEntries)":                                                     "discardStaleEntries|0",
+				"filter.Build(discarded)":                                                                   "filter.Build|0",
+				"table.Build(discarded, lm.dataBlockSize, 1)":                                               "table.Build|0",
+				"tableHandle{levelIdx: lm.maxLevelIdx(1) + 1, filter: *bf, dataBlockIndex: dataBlockIndex}": "name := maxLevelIdx(L1)+1|newIdx",
+				"lm.levels[1].PushBack(th)":                                                                 "PushBack L1|th",
+				"lm.levels[0].Remove(e)":                                                                    "Remove handle L0|e",
+				"lm.levels[1].Remove(e)":                                                                    "Remove handle L1|e",
+				"lm.writeTable(lm.fileName(1, th.levelIdx), tableBytes)":                                    "writeTable L1|th",
+				"os.Remove(lm.fileName(0, e.Value.(tableHandle).levelIdx))":                                 "os.Remove L0|e",
+				"os.Remove(lm.fileName(1, e.Value.(tableHandle).levelIdx))":                                 "os.Remove L1|e",
+			},
+			binds: map[string][][2]string{
+				"boundary(l0Tables...)":                                                                     {},
+				"lm.fetch(1, th.levelIdx, th.dataBlockIndex.DataBlock)":                                     {{"dataBlock", "th"}},
+				"lm.fetch(0, th.levelIdx, th.dataBlockIndex.DataBlock)":                                     {{"dataBlock", "th"}},
+				"kway.MergeVersions(dataBlockList...)":                                                      {{"mergedEntries", "()"}},
+				"lm.discardStaleEntries(mergedEntries)":                                                     {{"discarded", "()"}},
+				"filter.Build(discarded)":                                                                   {{"bf", "()"}},
+				"table.Build(discarded, lm.dataBlockSize, 1)":                                               {{"dataBlockIndex", "()"}, {"tableBytes", "()"}},
+				"tableHandle{levelIdx: lm.maxLevelIdx(1) + 1, filter: *bf, dataBlockIndex: dataBlockIndex}": {{"th", "newIdx"}},
+				"lm.writeTable(lm.fileName(1, th.levelIdx), tableBytes)":                                    {{"err", "writeFails"}},
+				"os.Remove(lm.fileName(0, e.Value.(tableHandle).levelIdx))":                                 {{"err", "false"}},
+				"os.Remove(lm.fileName(1, e.Value.(tableHandle).levelIdx))":                                 {{"err", "false"}},
+			},
+			wraps: map[string]func(string) string{
+				"lm.logger.Panicf(\"failed to write sstable: %v\", err)":      func(string) string { return "none" },
+				"lm.logger.Panicf(\"failed to delete old sstable: %v\", err)": func(string) string { return "none" },
+			},
+			skipStmt: func(st ast.Stmt) bool { return strings.HasPrefix(goStr(st), "defer utils.Elapsed(") },
+			ret:      func(vals []string, st []string) string { return "some (dataBlockList, ev)" },
+			fallOff:  func(st []string) string { return "some (dataBlockList, ev)" },
+			panicVal: "none",
+			skipCall: func(c *ast.CallExpr) bool { return strings.HasPrefix(goStr(c.Fun), "vhook.") },
+		}
+		d4 := ""
+		e4 := fmt.Errorf("levelManager.compactL0 not found")
+		if f4 != nil {
+			t := &translator{spec: sp}
+			tr := t.stmts(f4.Body.List, func() string { return sp.fallOff(sp.stateLn) }, "", "")
+			e4 = t.err
+			d4 = fmt.Sprintf("def %s %s : %s :=\n  let dataBlockList : List Nat := []\n  %s\n", sp.leanName, sp.binders, sp.retType, tr)
+		}
+		if e4 != nil {
+			d4 = fmt.Sprintf("/-- UNTRANSLATABLE: %s -/\ndef compactL0 : Unit := ()\n", strings.ReplaceAll(e4.Error(), "-/", "- /"))
+		}
+		sb.WriteString(d4 + "\n")
+	}
 	sb.WriteString("end GenLevel\n")
 	if err := os.WriteFile(out, []byte(sb.String()), 0644); err != nil {
 		fatal(err)
